@@ -473,7 +473,7 @@ func main() {
 			}
 		}
 		switch prop {
-		case "C01", "C07", "C11", "C10":
+		case "C01", "C07", "C11", "C10", "C06":
 			A := len(refs[i].events)
 			for k := 1; k <= A; k++ {
 				cases = append(cases, caseOut{shape: i, site: fileSite(refs[i].events[k-1]), pl: plan{Mode: "fault", K: k, Errno: "EIO", Retry: true}})
@@ -703,6 +703,30 @@ func judge(run *ev.Run, prop string, s shape, c *caseOut) string {
 		}
 	}
 	switch prop {
+	case "C06":
+		// after a failed and a retried commit (crashes are C08's subject) the reported count must equal what a scan returns,
+		// in the failing process itself and in a fresh one
+		chk := func(where string, d *txn.Dump) {
+			if d == nil {
+				return
+			}
+			var ns []string
+			for n := range d.Stores {
+				ns = append(ns, n)
+			}
+			sort.Strings(ns)
+			for _, n := range ns {
+				if d.Errs[n] == "" && int64(len(d.Stores[n])) != d.Counts[n] {
+					viol("count-mismatch", fmt.Sprintf("%s: store %s reports Count=%d, a scan returns %d items %v", where, n, d.Counts[n], len(d.Stores[n]), d.Stores[n]))
+				}
+			}
+		}
+		if c.child != nil {
+			chk("same process right after the commit ended", c.child.After)
+			chk("same process after the fault-free retry", c.child.AfterRetry)
+		}
+		chk("fresh process", &vr.Dump1)
+		return "judged"
 	case "C08":
 		if !readable {
 			viol("unreadable-after-crash", vr.Dump1.String())
